@@ -247,6 +247,11 @@ def run_generic(module_names, qname, obligation, model):
         allowed = tuple(x for x in list(c.raises) + list(c.may_raise) + list(c.raises_only or ())
                         if isinstance(x, type))
         bad = not (allowed and isinstance(outcome[1], allowed))
+        if bad and isinstance(outcome[1], (TypeError, AttributeError)) and \
+                any(w in str(outcome[1]) for w in ('Stub_', '_Anything', 'stub ')):
+            print('the exception comes from a stand-in object of the rebuilt input (a stub that is not callable / '
+                  'lacks an attribute), not from the code: not counted as a reproduction')
+            return 2
         print('exception %r is %s by the contract' % (outcome[1], 'NOT allowed' if bad else 'allowed'))
         return 1 if bad else 0
     m = re.search(r' : raises\[(\w+)\]', obligation)
